@@ -111,6 +111,11 @@ pub struct DetRun {
     pub target: Src,
     pub placement: Placement,
     pub samples: u64,
+    /// process environment of the compiling process: 0 = inherited, 1 = cwd `/`, 2 = cwd in the
+    /// scratch directory + other TZ/LANG/LC_ALL, 3 = a few hundred extra environment variables
+    /// (moves the stack and the heap)
+    #[serde(default)]
+    pub proc_env: u8,
 }
 
 #[derive(Clone, Debug, Default, Serialize, Deserialize, PartialEq)]
@@ -646,6 +651,7 @@ pub fn gen_c15(seed: u64, corpus: &[String]) -> DetRun {
         target,
         placement: *r_cfg.pick(&[Placement::Main, Placement::Main, Placement::FreshThread, Placement::UsedThread]),
         samples: 48,
+        proc_env: *root.sub("process-env").pick(&[0u8, 0, 1, 2, 3]),
     }
 }
 
@@ -658,5 +664,6 @@ pub fn canonical_of(run: &DetRun) -> DetRun {
         target: run.target.clone(),
         placement: Placement::Main,
         samples: run.samples,
+        proc_env: 0,
     }
 }
